@@ -25,12 +25,10 @@ Definition assemble (b : base) (ip : gen_ip) (tcp : gen_tcp) (pay : list Z) : ou
            x_sport := sport; x_dport := dport; x_seq := seq; x_ack := ack; x_flags := flags; x_urg := urg; x_win := win; x_opts := opts; x_payload := pay |}
     end
   end.
+(* the version check and the order ip / tcp / payload are GENERATED (gen_impersonate_compose, from impersonate()'s own last lines);
+   only the stacking of the three layers into one output record is written here *)
 Definition gen_impersonate (s : tcp_sig) (b : base) (hops mtu : Z) (uptime : option Z) : M outp :=
-  if negb (s_ver s =? -1) && negb (b_ver b =? s_ver s) then fail ValueErr else
-  let* ip := gen_impersonate_ip s b hops in
-  let* tcp := gen_impersonate_tcp s b mtu uptime in
-  let* pay := gen_impersonate_payload s b in
-  ret (assemble b ip tcp pay).
+  gen_impersonate_compose (assemble b) s b hops mtu uptime.
 
 (* ------------------------------------------------------------------ *)
 (* Quirk membership: [Quirk.X in quirks] on the mask is the bit test.  *)
@@ -201,7 +199,7 @@ Ltac mainhook X :=
 Theorem gen_impersonate_eq : forall s b hops mtu uptime t, wsize_ok s ->
   gen_impersonate s b hops mtu uptime t = imp_tcp s b hops mtu uptime t.
 Proof.
-  intros s b hops mtu uptime t Hw. unfold gen_impersonate, imp_tcp.
+  intros s b hops mtu uptime t Hw. unfold gen_impersonate, gen_impersonate_compose, imp_tcp.
   destruct (negb (s_ver s =? -1) && negb (b_ver b =? s_ver s)); [reflexivity|].
   norm. rewrite gen_impersonate_ip_eq. norm.
   destruct (imp_ip s b hops t) as [[[[[tos id] ipfl] fl] t1]|e] eqn:Eip; [|reflexivity].
@@ -209,6 +207,18 @@ Proof.
   repeat step mainhook;
     first [ reflexivity | destruct (b_ver b =? 6); [destruct Eip; subst id ipfl | subst fl]; reflexivity ].
 Qed.
+
+(* which signature impersonate() uses, as its source says: the signature argument wins over the label, neither is a ValueError, a label is
+   looked up in the section of the base packet's type (SYN: request, otherwise response) *)
+Theorem gen_select_signature_given : forall (T S : Type) (parse : T -> M S) lookup t l flags,
+  gen_select_signature parse lookup (Some t) l flags = parse t.
+Proof. reflexivity. Qed.
+Theorem gen_select_signature_label : forall (T S : Type) (parse : T -> M S) lookup l flags,
+  gen_select_signature parse lookup None (Some l) flags = lookup l (Z.land flags 18 =? 2).
+Proof. intros. unfold gen_select_signature. destruct (Z.land flags 18 =? 2); reflexivity. Qed.
+Theorem gen_select_signature_neither : forall (T S : Type) (parse : T -> M S) lookup flags,
+  gen_select_signature parse lookup None None flags = fail ValueErr.
+Proof. reflexivity. Qed.
 
 (* signatures that come out of the parser satisfy the side condition *)
 From PV Require Import Spec.C01 Model.Text Model.SigParse Proofs.DbParseP.
@@ -226,4 +236,7 @@ Print Assumptions gen_impersonate_options_eq.
 Print Assumptions gen_impersonate_window_eq.
 Print Assumptions gen_impersonate_payload_eq.
 Print Assumptions gen_impersonate_eq.
+Print Assumptions gen_select_signature_given.
+Print Assumptions gen_select_signature_label.
+Print Assumptions gen_select_signature_neither.
 Print Assumptions parsed_wsize_ok.
